@@ -736,6 +736,89 @@ def _localsplus_vectors():
 
 out["localsplus_vectors"] = _localsplus_vectors()
 
+# ---------------------------------------------------------------- exit sites of single-with functions and the handler each belongs to (3.11+)
+EXIT_SHAPES = {
+    "fall": "def f(cm):\n    with cm as x:\n        g(x)\n",
+    "return_value": "def f(cm):\n    with cm as x:\n        return g(x)\n",
+    "return_const": "def f(cm):\n    with cm as x:\n        return 1\n",
+    "break_in_loop": "def f(cm, it):\n    for i in it:\n        with cm as x:\n            if i:\n                break\n            g(x)\n",
+    "continue_in_loop": "def f(cm, it):\n    for i in it:\n        with cm as x:\n            if i:\n                continue\n            g(x)\n",
+    "tail_try_except": "def f(cm):\n    with cm as x:\n        try:\n            g(x)\n        except KeyError:\n            pass\n",
+    "tail_try_finally": "def f(cm):\n    with cm as x:\n        try:\n            g(x)\n        finally:\n            h(x)\n",
+    "tail_while": "def f(cm, n):\n    with cm as x:\n        while n:\n            n = g(n)\n",
+    "tail_for": "def f(cm, it):\n    with cm as x:\n        for i in it:\n            g(i)\n",
+    "tail_if": "def f(cm, c):\n    with cm as x:\n        if c:\n            g(x)\n",
+    "tail_if_else": "def f(cm, c):\n    with cm as x:\n        if c:\n            g(x)\n        else:\n            h(x)\n",
+    "tail_if_break": "def f(cm, it):\n    for i in it:\n        with cm as x:\n            if i == 1:\n                g(x)\n            elif i == 2:\n                break\n",
+    "empty_body": "def f(cm):\n    with cm as x:\n        pass\n",
+    "no_target": "def f(cm):\n    with cm:\n        g()\n",
+    "in_try": "def f(cm):\n    try:\n        with cm as x:\n            g(x)\n    except KeyError:\n        pass\n",
+    "after_try": "def f(cm):\n    try:\n        g()\n    except KeyError:\n        pass\n    with cm as x:\n        g(x)\n",
+    "async_fall": "async def f(cm):\n    async with cm as x:\n        g(x)\n",
+    "async_tail_try_except": "async def f(cm):\n    async with cm as x:\n        try:\n            g(x)\n        except KeyError:\n            pass\n",
+    "async_return_value": "async def f(cm):\n    async with cm as x:\n        return g(x)\n",
+    "nested_fall": "def f(a, b):\n    with a as x:\n        with b as y:\n            g(x, y)\n",
+    "nested_then_more": "def f(a, b):\n    with a as x:\n        with b as y:\n            g(x, y)\n        h(x)\n",
+    "nested_break_both": "def f(a, b, it):\n    for i in it:\n        with a as x:\n            with b as y:\n                if i:\n                    break\n                g(x, y)\n",
+    "nested_return_both": "def f(a, b):\n    with a as x:\n        with b as y:\n            return g(x, y)\n",
+    "sequential": "def f(a, b):\n    with a as x:\n        g(x)\n    with b as y:\n        g(y)\n",
+    "nested_inner_tail_try": "def f(a, b):\n    with a as x:\n        with b as y:\n            try:\n                g(x)\n            except KeyError:\n                pass\n",
+    "outer_tail_try_with_inner": "def f(a, b):\n    with a as x:\n        try:\n            with b as y:\n                g(y)\n        except KeyError:\n            pass\n",
+    "return_through_finally_with": "def f(a, b):\n    try:\n        with a as x:\n            return g(x)\n    finally:\n        with b as y:\n            h(y)\n",
+    "loop_of_withs_tail_while": "def f(a, b, n):\n    with a as x:\n        while n:\n            with b as y:\n                n = g(n)\n",
+    "async_nested_fall": "async def f(a, b):\n    async with a as x:\n        async with b as y:\n            g(x, y)\n",
+    "async_in_sync": "async def f(a, b):\n    with a as x:\n        async with b as y:\n            g(x, y)\n",
+}
+
+
+def _exit_sites():
+    """per shape: bytecode, exception table, and every normal-path exit call site with the handler of the with statement it
+    belongs to.  Ground truth comes from line numbers: the compiler attributes a with statement's exit call and its handler's
+    WITH_EXCEPT_START to the line of the `with` keyword, and every with statement of a shape is on its own line"""
+    if sys.version_info < (3, 11):
+        return None
+    res = {}
+    for name, src in EXIT_SHAPES.items():
+        ns = {}
+        exec(compile(src, "<probe>", "exec"), ns)
+        code = ns["f"].__code__
+        insns = list(dis.get_instructions(code, show_caches=True))
+        real = [i for i in insns if i.opname != "CACHE"]
+        entries = []
+        for e in dis.Bytecode(code).exception_entries:
+            entries.append([e.start, e.end - 2, e.target, e.depth, bool(e.lasti)])
+
+        def line_of(i):
+            return i.positions.lineno if getattr(i, "positions", None) is not None else None
+        handler_by_line = {}
+        async_by_line = {}
+        for k, i in enumerate(real[:-1]):
+            if i.opname == "PUSH_EXC_INFO" and real[k + 1].opname == "WITH_EXCEPT_START":
+                handler_by_line.setdefault(line_of(real[k + 1]), []).append(i.offset)
+            if i.opname in ("BEFORE_WITH", "BEFORE_ASYNC_WITH"):
+                async_by_line[line_of(i)] = i.opname == "BEFORE_ASYNC_WITH"
+        sites = []
+        for k, i in enumerate(real):
+            prev = [r for r in real[:k] if r.opname != "PRECALL"][-3:]
+            if i.opname == "CALL" and i.arg == 2 and len(prev) == 3 and all(r.opname == "LOAD_CONST" and r.argval is None for r in prev):
+                ln = line_of(i)
+                hs = handler_by_line.get(ln)
+                if not hs or len(set(hs)) != 1 or ln not in async_by_line:
+                    continue
+                site = {"call": i.offset, "handler": hs[0], "is_async": async_by_line[ln], "line": ln}
+                if site["is_async"]:
+                    snd = [r for r in real[k + 1:k + 6] if r.opname == "SEND"]
+                    yv = [r for r in real[k + 1:k + 8] if r.opname == "YIELD_VALUE"]
+                    if not snd or not yv:
+                        continue
+                    site["send"] = snd[0].offset
+                    site["yield_value"] = yv[0].offset
+                sites.append(site)
+        res[name] = {"co_code": list(code.co_code), "consts_none": [c is None for c in code.co_consts], "entries": entries, "sites": sites}
+    return res
+
+out["exit_sites"] = _exit_sites()
+
 out["stdlib_module_names"] = sorted(getattr(sys, "stdlib_module_names", []))
 
 json.dump(out, sys.stdout)
